@@ -172,7 +172,7 @@ def evaluate(c, hist, model_lines, mode, tag, exe_path, extra_args, counters):
         # index of the k-th observation line (P,U,Q,F,S,Y,M,R,C,W) in the history
         n = 0
         for i, l in enumerate(hist.get(h, [])):
-            if l[:2] in ("P ", "U ", "Q ", "F ", "S ", "Y ", "M ", "R ", "C ", "W "):
+            if l[:2] in ("P ", "U ", "Q ", "F ", "S ", "Y ", "M ", "R ", "C ", "W ") or l[:3] in ("UC ", "UI ", "GR ", "GU "):
                 n += 1
                 if n == k:
                     return i + 1
@@ -278,6 +278,10 @@ def evaluate(c, hist, model_lines, mode, tag, exe_path, extra_args, counters):
                     elif mh.get(t) == "none" and v != "none":
                         key = hobj(h).classify_extra_pending(t, line_no(h, int(kk))) or "history:spec"
                         fail(h, key, "query %s: transaction %s is still in the pending set although it is confirmed or can never confirm" % (kk, t))
+        elif k == "B":
+            if f[4] != f[5]:
+                names = {"UC": "unmined credits", "UI": "unmined inputs", "GR": "mined deposit rows", "GU": "unmined deposit rows"}
+                fail(h, "history:model", "query %s bucket of %s: implementation [%s] model [%s]" % (f[2], names.get(f[3], f[3]), f[4][:300], f[5][:300]))
         elif k == "C":
             _, _, kk, w, quiet, ie, me, all_, half, ins, el = f
             counters["selections"] += 1
